@@ -915,7 +915,7 @@ def run(ctx):
             exes += [gen_corrupt_p(rng, 30) for _ in range(30 * k)]
             exes += [gen_q(rng, 6 + rng.below(10)) for _ in range(30 * k)]
             exes += [gen_e(rng, 4 + rng.below(8)) for _ in range(50 * k)]
-            exes += [gen_e(rng, 2 + rng.below(3), big=True) for _ in range(10 * k)]
+            exes += [gen_e(rng, 2 + rng.below(3), big=True) for _ in range(10 if quick else 40)]
             execute(ctx, side["bin"], exes, jobs=6)
             side["exes"] = exes
             side["suspects"] = validate_pool(ctx, exes, "cs")
